@@ -265,7 +265,7 @@ class AcmSpec(Spec):
         self.mps = cfg["mps"]
         self.cap = 2 * self.mps - 1                     # documented default buffer of the OUT endpoint
         self.max_depth = cfg["depth"]
-        self.time_budget = 100 if tier == "quick" else 840
+        self.time_budget = 600 if tier == "quick" else 3000      # safety net only: the depth bounds limit the work
         self.gran = cfg["gran"]
         self.reqs = list(cfg["reqs"])
         self.abandon, self.lost, self.early = cfg.get("abandon", 0), cfg.get("lost", 0), cfg.get("early", 0)
